@@ -778,7 +778,7 @@ impl Engine for ShellSim {
                 if !quiet && rng.random_range(0..60) == 0 {
                     self.pending.push_back(Reply { at: self.now + 5, link: r.link, bytes: r.bytes.clone() }); // duplicate
                 }
-                return Some(json!({"ev": "UplinkPkt", "l": r.link as i64 + 1, "bytes": r.bytes}));
+                return Some(json!({"ev": "UplinkPkt", "l": r.link as i64 + 1, "bytes": r.bytes, "stray": false}));
             }
         }
         // 1a. right after a link was marked for recovery: a (stale) keepalive echo with a plausible timestamp
@@ -787,7 +787,7 @@ impl Engine for ShellSim {
                 let mut b = vec![0u8; 38];
                 b[0..2].copy_from_slice(&SRTLA_TYPE_KEEPALIVE.to_be_bytes());
                 b[2..10].copy_from_slice(&(self.now - rng.random_range(5..300)).to_be_bytes());
-                return Some(json!({"ev": "UplinkPkt", "l": l as i64 + 1, "bytes": b}));
+                return Some(json!({"ev": "UplinkPkt", "l": l as i64 + 1, "bytes": b, "stray": true}));
             }
         }
         // 1c. while an RTT probe is outstanding on some link: an echo whose stamp sits on a boundary of the
@@ -805,7 +805,7 @@ impl Engine for ShellSim {
                 let mut b = vec![0u8; if rng.random_range(0..2) == 0 { 10 } else { 38 }];
                 b[0..2].copy_from_slice(&SRTLA_TYPE_KEEPALIVE.to_be_bytes());
                 b[2..10].copy_from_slice(&ts.to_be_bytes());
-                return Some(json!({"ev": "UplinkPkt", "l": l as i64 + 1, "bytes": b}));
+                return Some(json!({"ev": "UplinkPkt", "l": l as i64 + 1, "bytes": b, "stray": true}));
             }
         }
         // 1b. a loaded uplink channel is drained before anything else (<= 64 datagrams per call)
@@ -917,7 +917,7 @@ impl Engine for ShellSim {
                     b[2..10].copy_from_slice(&ts.to_be_bytes());
                 }
             }
-            return Some(json!({"ev": "UplinkPkt", "l": l, "bytes": b}));
+            return Some(json!({"ev": "UplinkPkt", "l": l, "bytes": b, "stray": true}));
         }
         // 5. time
         if r < 330 {
